@@ -21,10 +21,19 @@ inductive Status | after (t : Nat) | hold
 
 structure Cfg where
   fixRand : Bool := false
+  /-- repair of F-C08-1 / F-C03-2: a message whose latency has elapsed but which has not been handed to
+      its host yet (it sits in a `deliverable` queue) is still in flight — `hold` recalls it into the
+      in-flight queue and holds it, an explicit partition discards it.  A link copies the flag when it is
+      created (`Link.fixMatured`), so that `hold` / `explicit_partition` / `partition_oneway` keep their
+      signatures. -/
+  fixMatured : Bool := false
   deriving DecidableEq, Repr, Inhabited
 
 def Cfg.faithful : Cfg := { fixRand := false }
-def Cfg.fixed : Cfg := { fixRand := true }
+/-- the committed code: both repairs of `top.rs`. -/
+def Cfg.fixed : Cfg := { fixRand := true, fixMatured := true }
+/-- the tree before the repair of F-C08-1 / F-C03-2 (random process repaired only). -/
+def Cfg.fixedRand : Cfg := { fixRand := true }
 
 /-- A message on a link. `src`,`dst` are the numeric host addresses; `msg` is opaque to the link. -/
 structure Sent (M : Type) where
@@ -52,6 +61,8 @@ structure Link (M : Type) where
   exAB : Bool := false
   exBA : Bool := false
   nextId : Nat := 0
+  /-- model variant (`Cfg.fixMatured` of the world that created the link); never written. -/
+  fixMatured : Bool := false
   deriving Repr, Inhabited
 
 variable {M : Type}
@@ -96,9 +107,21 @@ def releaseOne (now : Nat) (s : Sent M) : Sent M :=
 def release (l : Link M) : Link M :=
   { l with stAB := .healthy, stBA := .healthy, sent := l.sent.map (releaseOne l.now) }
 
-def hold (l : Link M) : Link M :=
+/-- `recall_deliverable` (repair of F-C08-1): the messages that are ready but not yet handed to their
+    host go back to the FRONT of the in-flight queue — those for the lower end point `a` first, then
+    those for `b`, each queue in order — scheduled for `now`; both ready queues are left empty. -/
+def recall (l : Link M) : Link M :=
+  { l with sent := (l.toA ++ l.toB).map (fun s => { s with status := .after l.now }) ++ l.sent,
+           toA := [], toB := [] }
+
+/-- the pre-repair `hold`: both directions `Hold`, every in-flight message held. -/
+def holdRaw (l : Link M) : Link M :=
   { l with stAB := .hold, stBA := .hold,
            sent := l.sent.map (fun s => { s with status := .hold }) }
+
+/-- `hold`: (repaired: recall the ready messages, then) hold everything in flight. -/
+def hold (l : Link M) : Link M :=
+  if l.fixMatured then l.recall.holdRaw else l.holdRaw
 
 /-- The random failure / repair process run at the start of every `enqueue_message`.
     Returns the new link and the messages it discarded.
@@ -157,14 +180,31 @@ def drain (l : Link M) (host : Nat) : Link M × List (Sent M) :=
   else if host == l.b then ({ l with toB := [] }, l.toB)
   else (l, [])
 
+/-- `explicit_partition`: everything in flight is discarded — repaired: also what is ready but not yet
+    handed over (second component: every discarded message). -/
 def explicitPartition (l : Link M) : Link M × List (Sent M) :=
-  ({ l with stAB := .explicit, stBA := .explicit, sent := [], exAB := true, exBA := true }, l.sent)
+  if l.fixMatured then
+    ({ l with stAB := .explicit, stBA := .explicit, sent := [], toA := [], toB := [], exAB := true, exBA := true },
+     l.sent ++ l.toA ++ l.toB)
+  else
+    ({ l with stAB := .explicit, stBA := .explicit, sent := [], exAB := true, exBA := true }, l.sent)
+
+/-- the ready queue of destination `dst` is discarded (`deliverable.get_mut(&to).clear()`):
+    the remaining queues and what was discarded. -/
+def clearReady (l : Link M) (dst : Nat) : List (Sent M) × List (Sent M) × List (Sent M) :=
+  if dst == l.a then ([], l.toB, l.toA)
+  else if dst == l.b then (l.toA, [], l.toB)
+  else (l.toA, l.toB, [])
 
 def partitionOneway (l : Link M) (src dst : Nat) : Link M × List (Sent M) :=
   let l' := if src < dst then { l with stAB := .explicit, exAB := true }
             else { l with stBA := .explicit, exBA := true }
-  ({ l' with sent := l.sent.filter (fun s => s.src != src) },
-   l.sent.filter (fun s => s.src == src))
+  if l.fixMatured then
+    ({ l' with sent := l.sent.filter (fun s => s.src != src), toA := (l.clearReady dst).1, toB := (l.clearReady dst).2.1 },
+     l.sent.filter (fun s => s.src == src) ++ (l.clearReady dst).2.2)
+  else
+    ({ l' with sent := l.sent.filter (fun s => s.src != src) },
+     l.sent.filter (fun s => s.src == src))
 
 def repairOneway (l : Link M) (src dst : Nat) : Link M :=
   if src < dst then { l with stAB := .healthy, exAB := false }
@@ -229,7 +269,8 @@ def run (cfg : Cfg) : Link M → List (LinkOp M) → Link M × List (Sent M)
       let (l2, outs) := run cfg l1 ops
       (l2, out ++ outs)
 
-def init (a b : Nat) : Link M := { a := a, b := b }
+/-- a fresh link (`fm`: the model variant it is created under). -/
+def init (a b : Nat) (fm : Bool := false) : Link M := { a := a, b := b, fixMatured := fm }
 
 end Link
 end TV
